@@ -213,6 +213,9 @@ def merge_actions():
     for path in ((), ('m',)):
         acts.append(('loose', 'flat', path))
         acts.append(('state', None, path))
+        # the same step declared again with ANOTHER dependency list: the
+        # later entry wins
+        acts.append(('flowvar', 'steps', path))
     return acts
 
 
@@ -225,6 +228,15 @@ def do_merge(target, action, ledger):
         ledger.append((comp, snap(comp), copy.deepcopy(snap(comp))))
         target.merge(composite=comp, path=path)
         return comp
+    if kind == 'flowvar':
+        t = TEMPLATES[tname]
+        steps = probes.build_tree(copy.deepcopy(t['steps']))
+        topo = {k: copy.deepcopy(t['topology'][k]) for k in t['steps']}
+        flow = {'w': [], 'r': [], 'd': [('r',)]}
+        loose = Composite({'steps': steps, 'topology': topo,
+                           'flow': copy.deepcopy(flow)})
+        target.merge(steps=steps, topology=topo, flow=flow, path=path)
+        return loose
     if kind == 'loose':
         t = TEMPLATES[tname]
         procs = probes.build_tree(copy.deepcopy(t['processes']))
@@ -401,8 +413,39 @@ def check_overrides(tname, acc):
                                 return
 
 
+def check_late_override(tname, acc):
+    """An override merged AFTER the composite was loaded once still
+    reaches the store and the engine built afterwards."""
+    t = TEMPLATES[tname]
+    case = {'part': 'late-override', 'template': tname}
+    acc.case(key=('late-override', tname), outcome='override')
+    comp = ProbeComposer({'template': tname}).generate()
+    try:
+        comp.generate_store()            # first load
+        comp.merge(schema_override={'p': {'port': {'x': {
+            '_default': 777}}}})
+        store = comp.generate_store()
+        got = store.get_value()['s']['x']
+        eng = run_engine(1, composite=comp)
+        first = eng.emitter.records[1]['snapshot']['s']['x']
+    except Exception as e:  # noqa
+        acc.violate(fw.violation(
+            'C16.crash', f'late-override:{type(e).__name__}',
+            f'{tname}: {e!r}', case))
+        return
+    if got != 777 or first != 777:
+        acc.violate(fw.violation(
+            'C16.override', 'late-override-does-not-reach-the-store',
+            f'{tname}: after merge(schema_override) the store built from '
+            f'the composite holds x={got}, the engine starts with x={first} '
+            f'(override default 777)', case))
+
+
 def run_job(job, acc):
     kind = job[0]
+    if kind == 'late-override':
+        check_late_override(job[1], acc)
+        return
     if kind == 'embed':
         check_embedding(job[1], job[2], acc)
     elif kind == 'merge':
@@ -422,6 +465,10 @@ def jobs(ctx):
             out.append(('entry', tname, path, True))
             out.append(('entry', tname, path, False))
         out.append(('override', tname))
+        if tname == 'flat':
+            # (only template in which p alone declares s/x: a variable
+            # shared by several declarers takes the last declared default)
+            out.append(('late-override', tname))
     acts = merge_actions()
     for n in range(1, BOUNDS[ctx.tier]['merge_len'] + 1):
         for seq in itertools.product(acts, repeat=n):
@@ -443,6 +490,8 @@ def replay(case):
         check_embedding(case['template'], tup(case['path']), acc)
     elif case['part'] == 'merge':
         check_merges(tup(case['sequence']), acc)
+    elif case['part'] == 'late-override':
+        check_late_override(case['template'], acc)
     elif case['part'] == 'entry':
         check_entry_points(case['template'], tup(case['path']), acc,
                            case['explicit_state'])
